@@ -259,7 +259,7 @@ pub fn run_law(op: &str, args: &[String]) -> String {
             r.insert("zz".to_string(), true);
             // long assignments (a whole network state): 63, 64, 65 and 100 keys in every other case
             if seed % 2 == 1 {
-                let total = [63usize, 64, 65, 100][((seed / 4) % 4) as usize];
+                let total = [63usize, 64, 65, 100, 128, 129, 256, 1000][((seed / 4) % 8) as usize];
                 let mut i = 0;
                 while r.len() < total {
                     r.insert(format!("k{:03}", i), rng.coin());
@@ -621,6 +621,31 @@ pub fn run_law(op: &str, args: &[String]) -> String {
                 .collect();
             format!("(L {} {} {} {} {} {})", shape(&res), names_of(&a), enc_name(&key), enc_name(&other), evals(&res, &smp), enc_bits(&a_over))
         }
+        "law.subst.many" => {
+            // every input is a key: v_i := (not) v_{i+1 mod n} — a rotation, so that substituting one key
+            // after the other gives a different function than the simultaneous substitution
+            let ins: Vec<String> = match &a {
+                Val::E(x) => x.inputs().into_iter().collect(),
+                Val::T(x) => x.inputs().into_iter().collect(),
+                Val::B(x) => x.inputs().into_iter().collect(),
+            };
+            let m = ins.len();
+            let pos: Vec<bool> = (0..m).map(|_| rng.coin()).collect();
+            let target = |i: usize| ins[(i + 1) % m].clone();
+            let res = match &a {
+                Val::E(x) => Val::E(x.substitute(&(0..m).map(|i| (ins[i].clone(), nlit(&target(i), pos[i]))).collect())),
+                Val::T(x) => Val::T(x.substitute(&(0..m).map(|i| (ins[i].clone(), TruthTable::from(nlit(&target(i), pos[i])))).collect())),
+                Val::B(x) => Val::B(x.substitute(&(0..m).map(|i| (ins[i].clone(), Bdd::try_from(nlit(&target(i), pos[i])).expect("HARNESS: literal bdd"))).collect())),
+            };
+            let a_over: Vec<bool> = smp
+                .iter()
+                .map(|s| {
+                    let composed: BTreeMap<String, bool> = (0..m).map(|i| (ins[i].clone(), *s.get(&target(i)).unwrap_or(&false) == pos[i])).collect();
+                    eval(&a, &over(s, &composed))
+                })
+                .collect();
+            format!("(L {} {} {} {})", shape(&res), names_of(&a), evals(&res, &smp), enc_bits(&a_over))
+        }
         "law.csv" => {
             // a complete CSV file of n input columns (2^n records), without a header (`N`), with the
             // header x_0.. spelled out (`H`) or with shuffled distinct names (`S`); rows in a shuffled
@@ -744,7 +769,7 @@ pub fn gen_laws(cx: &mut crate::gen::Ctx, prop: &str) {
         "C02" => &["law.eval"],
         "C03" => &["law.and", "law.or", "law.xor", "law.not"],
         "C04" => &["law.cmp"],
-        "C08" => &["law.subst"],
+        "C08" => &["law.subst", "law.subst.many"],
         "C05" => &["law.restrict"],
         "C06" => &["law.exists", "law.forall", "law.elimall", "law.forall.many", "law.exists.many"],
         "C07" => &["law.deriv", "law.elimall", "law.deriv.many"],
@@ -799,7 +824,7 @@ pub fn gen_laws(cx: &mut crate::gen::Ctx, prop: &str) {
             vec![("B", vec![17, 54, 65, 130])]
         } else if *op == "law.deriv.many" {
             vec![("E", if cx.thorough { vec![3, 6, 9, 10, 11, 12] } else { vec![6, 9, 11] })]
-        } else if op.ends_with(".many") {
+        } else if op.ends_with(".many") && *op != "law.subst.many" {
             vec![("E", if cx.thorough { vec![12, 20, 21, 22] } else { vec![12, 21] })]
         } else {
             kinds
